@@ -1,4 +1,4 @@
-import Originium.Model.DiskRecover
+import Originium.Model.DiskProgMain
 /-! # C04 — after a crash every transaction is visible completely or not at all (process-crash model)
 
 In an accepted trace a transaction reaches the disk by exactly one event `commit id b` carrying its
@@ -37,7 +37,38 @@ theorem C04_split_commit_witness :
     e1 ∈ surviving d ∧ e2 ∉ surviving d := by
   decide
 
+/-- the same for every execution of the modelled engine (`Prog`: all schedules of foreground and
+    flusher, a kill at any point, any number of recoveries): a transaction's batch is written by
+    one event, so at every reachable point it is on the disk (or shadowed) completely, or not at all -/
+theorem C04_program_all_or_nothing {s : Prog.PSt} (h : Prog.ReachP s) (b : List E) :
+    (b ∈ s.t.batches → ∀ e ∈ b, Kept s.t.d s.t.low e) ∧
+    ((∀ b' ∈ s.t.batches, ∀ e ∈ b, e ∉ b') → ∀ e ∈ b, e ∉ surviving s.t.d) := by
+  have ht := Prog.reachP_tinv h
+  refine ⟨fun hb e he => ht.kept b hb e he, ?_⟩
+  intro hnone e he hsurv
+  obtain ⟨b', hb', heb'⟩ := ht.begun e hsurv
+  exact hnone b' hb' e he heb'
+
+/-- the program writes a transaction with exactly one wal write: the only program rule that emits a
+    `commit` event takes the whole batch, and no other rule appends to a wal outside recovery's
+    replay of records that already are on the disk -/
+theorem C04_program_one_write {t : TSt} {m m' : Prog.Mem} {id : Nat} {b : List E}
+    (h : Prog.act t m (.ev (.commit id b)) = some m') :
+    m.c = .idle ∧ m.active = some id ∧ m'.c = .commit b false ∧ (b.map (·.key)).Nodup := by
+  simp only [Prog.act] at h
+  unfold Prog.actCommit at h
+  split at h
+  · rename_i a e0 rest hc hact
+    split at h
+    · rename_i hcond
+      simp only [Option.some.injEq] at h; subst h
+      exact ⟨hc, by rw [hact, hcond.1], rfl, hcond.2.2.2⟩
+    · cases h
+  · cases h
+
 #print axioms C04_all_or_nothing
 #print axioms C04_written_visible
 #print axioms C04_split_commit_witness
+#print axioms C04_program_all_or_nothing
+#print axioms C04_program_one_write
 end Props
